@@ -212,6 +212,16 @@ def check_case(case, ctx):
             ok = False
         if ok != (rm is not None):
             return {"what": "OPERATORS_ON_VARIABLE", "accepted": ok, "expected_mode": repr(rm)}
+        v2 = let(B, bs)
+        for opname, opf in (("==", lambda: v == 1), ("<", lambda: v < 1), ("[]", lambda: v[0]), ("()", lambda: v()),
+                            ("&", lambda: v & v2), ("|", lambda: v | v2), ("~", lambda: ~v2)):
+            try:
+                opf()
+                ok = True
+            except (AttributeError, TypeError):
+                ok = False
+            if ok != (rm is not None):
+                return {"what": "OPERATORS_ON_VARIABLE", "operator": opname, "accepted": ok, "expected_mode": repr(rm)}
         if step % 3 == 0:
             ctx.count("thread_probes")
             seen = {}
